@@ -45,7 +45,7 @@ func streamSpecAt(name string, n, max int, mixed bool, prefix string) *spec.Spec
 func c17(args []string) {
 	c := chk.New("C17", "exploration", args)
 	c.Build(false)
-	c.Rule("producer/consumer pairs connected by an {os:..} port: n in {1,2,4} streamed items with maxConcurrentTasks in 2n..2n+2, payload sizes {0,1,4095,65536,65537,1 MiB} (below and above the pipe buffer), exit order forced both ways (producer or consumer lingers after closing its files), producers with only a streaming output and with an additional regular output, SCIPIPE_BUFSIZE and yield seeds varied; history 'complete run, then run again'; oracle: sha256 the consumer read through the FIFO == sha256 the producer wrote (both logged by the commands), consumer output == reference, at the instant Run returns no FIFO and no regular file at the stream path, consumer audit names the producer under Upstream[stream path], hang classification incl. FIFO-blocked children (wchan), re-run terminates and leaves inode/mtime/bytes of consumer outputs untouched. distinct_nontrivial = distinct (n, max, size, exit order, mixed, config) runs whose byte comparison was made")
+	c.Rule("producer/consumer pairs connected by an {os:..} port: n in {1,2,4} (and 12, 24, 40 with the producers exiting last) streamed items with maxConcurrentTasks in 2n..2n+2, payload sizes {0,1,4095,65536,65537,1 MiB} (below and above the pipe buffer), exit order forced both ways (producer or consumer lingers after closing its files), producers with only a streaming output and with an additional regular output, SCIPIPE_BUFSIZE and yield seeds varied; history 'complete run, then run again'; oracle: sha256 the consumer read through the FIFO == sha256 the producer wrote (both logged by the commands), consumer output == reference, at the instant Run returns no FIFO and no regular file at the stream path, consumer audit names the producer under Upstream[stream path], hang classification incl. FIFO-blocked children (wchan), re-run terminates and leaves inode/mtime/bytes of consumer outputs untouched. distinct_nontrivial = distinct (n, max, size, exit order, mixed, config) runs whose byte comparison was made")
 	c.Assume("one consumer per streaming port; maxConcurrentTasks >= 2n (each producer and its consumer can run at the same time)")
 	rng := c.Rand("c17")
 	type job struct {
@@ -68,6 +68,18 @@ func c17(args []string) {
 					jobs = append(jobs, &job{n: n, max: 2*n + rng.Intn(3), size: size, order: order, mixed: (si+oi+r)%2 == 0,
 						cfg: Cfg{Buf: []int{1, 3, 128}[rng.Intn(3)], Procs: []int{1, 2, 4}[rng.Intn(3)], Sched: fmt.Sprintf("%d,300,500", rng.Intn(1<<30))}})
 				}
+			}
+		}
+	}
+	// many items through one producer process, the producers exiting after their consumers:
+	// whatever the process does after its last task races with Run returning
+	for _, n := range []int{12, 24, 40} {
+		for r := 0; r < c.Pick(6, 16); r++ {
+			jobs = append(jobs, &job{n: n, max: 2 * n, size: []int{1, 4095}[r%2], order: "producer-last", mixed: r%4 == 3,
+				cfg: Cfg{Buf: []int{1, 3, 128}[rng.Intn(3)], Procs: []int{2, 4, 16}[rng.Intn(3)]}})
+			if r%2 == 1 {
+				// every hook point (one sits right behind the closing of an in-port channel) delays its goroutine by up to 2 ms
+				jobs[len(jobs)-1].cfg.Sched = fmt.Sprintf("%d,1000,2000", rng.Intn(1<<30))
 			}
 		}
 	}
